@@ -5,6 +5,7 @@ CONSTANTS
  NInl <- TNInl
  MaxSz <- TMaxSz
  TypeId <- TTypeId
+ AllocId <- TAllocId
 INVARIANT Report
 POSTCONDITION TraceAccepted
 CHECK_DEADLOCK FALSE
